@@ -32,6 +32,9 @@ func checkC18(c *Ctx) {
 		c.Undecided("C18-R1", "package tcell", "-", "not loaded")
 		return
 	}
+	c.Rule("C18-R8", "the simulation's ShowCursor remembers the requested position as given")
+	c.Expect("C18-R8", 1)
+	checkShowCursorStoresRequest(c, p, "C18-R8", "simscreen")
 	ik := p.Fn("tcell:(*simscreen).InjectKeyBytes")
 	if ik == nil {
 		c.Undecided("C18-R1", "InjectKeyBytes", "-", "not found")
